@@ -38,6 +38,7 @@ RULES = {
     "R20.8": "the four problem constructors and the solver accept `config` or keyword arguments the same way: self.config = config if given else self.Config(**kwargs)",
     "R20.9": "verbosity: every validator-accepted level 0..4 is a key of the level table, the table is {0:ERROR,1:WARNING,2:INFO,3:DEBUG,4:TRACE}, the string table of set_verbosity is its inverse, anything else raises",
     "R20.10": "defaults: every field default lies in the validator-accepted domain, and the five solver configurations agree on the defaults of their shared fields (gamma of relative value iteration excepted); jax_double_precision defaults to True",
+    "R20.11": "solver code never takes a dtype from a runtime value (`x.astype(v.dtype)`, `dtype=v.dtype`) nor casts to a narrower float: with double precision requested, results must not inherit the width of whatever estimates or tables came in (expected count zero)",
     "R20.6": "the 64-bit switch dominates every JAX array creation and the problem instantiation in Solver._setup_config; problem constructors do not create floating tables before a solver can enable it",
 }
 ASSUMPTIONS = [
@@ -827,6 +828,32 @@ def _defaults(ctx, col):
                 text=f"sibling default {f}")
 
 
+# =============================================================================== R20.11
+NARROW = ("float32", "float16", "bfloat16", "int32", "int16", "int8", "int64")
+
+
+def _runtime_dtypes(ctx, col):
+    mods = [m for m in ctx.repo.modules.values() if m.name.startswith("mdpax.solvers.") or m.name == "mdpax.core.solver"]
+    for m in sorted(mods, key=lambda x: x.name):
+        bad = []
+        for n in ast.walk(m.tree):
+            if not isinstance(n, ast.Call):
+                continue
+            exprs = []
+            if isinstance(n.func, ast.Attribute) and n.func.attr == "astype" and n.args:
+                exprs.append(n.args[0])
+            exprs += [k.value for k in n.keywords if k.arg == "dtype"]
+            for e in exprs:
+                src = ast.unparse(e)
+                if (isinstance(e, ast.Attribute) and e.attr == "dtype") or any(src.endswith("." + w) or src == w for w in NARROW):
+                    bad.append((n, src))
+        for n, src in bad:
+            col.add("R20.11", m.name, m.relpath, n.lineno, False,
+                    f"`{norm_text(n)[:90]}`: the dtype `{src}` is taken from a runtime value or is narrower than float64, so values computed with "
+                    "jax_double_precision=True are silently cast (integer or float32 estimates / tables truncate the results)", text=f"dtype {src}")
+        col.add("R20.11", m.name, m.relpath, 1, True, "module scanned: no runtime-derived or narrow dtype", text="module scanned")
+
+
 # =============================================================================== R20.7 / R20.8
 def _config_fields(ctx, col):
     n = 0
@@ -900,6 +927,8 @@ def run(ctx: Context, col) -> None:
     col.floor("R20.9", 9)
     _defaults(ctx, col)
     col.floor("R20.10", 40)
+    _runtime_dtypes(ctx, col)
+    col.floor("R20.11", 6)
     _x64(ctx, col)
     try:
         _format_precision(ctx, col)
